@@ -2,6 +2,7 @@ import Zc.Proofs.DecodeLib
 import Zc.Proofs.DecodeWork
 import Zc.Proofs.DecodeRefute
 import Zc.Proofs.DecodeAgreeMsg
+import Zc.Proofs.DecodeAgreeMixed
 import Zc.Proofs.Utf8RoundTrip
 import Zc.Proofs.NameText
 /-! # C02 — the decoder is total, bounded and faithful on arbitrary datagrams
@@ -167,6 +168,35 @@ theorem C02_agrees_strict (b : Bytes) (m : WMsg) (h : Strict.decode b = some m)
     (hs : Strict.supportedOnly m = true) (hr : reencodable m = true) :
     ∃ p, (parse b).out = .ok p ∧ agrees p m = true :=
   parse_agrees libCfg_ok libCfg_agree b m h hs hr
+
+/-- **Faithfulness beyond the sentence: records of unsupported types are skipped and disturb nothing.**  The
+property only speaks of datagrams that use supported record types; nearly half of the strict-accepted datagrams the
+harness generates carry an unsupported record somewhere (second review, finding 4).  For those the model's object is
+valid and carries the strict parser's header, questions and its records *of supported types*, in packet order
+(`agreesSupported`: an unsupported record costs `self.offset += length` and nothing else).  No `supportedOnly`
+hypothesis; with it, `flatSupported = flat` and this is `C02_agrees_strict` again
+(`C02_agrees_strict_from_supported_part`).  The harness judges the implementation against this on every
+strict-accepted datagram that is outside the property's hypothesis only because of an unsupported type, and reports a
+difference as a broken correspondence (the property itself does not forbid, say, dropping such a message). -/
+theorem C02_agrees_strict_supported_part (b : Bytes) (m : WMsg) (h : Strict.decode b = some m)
+    (hr : reencodable m = true) :
+    ∃ p, (parse b).out = .ok p ∧ agreesSupported p m = true :=
+  parse_agrees_mixed libCfg_ok libCfg_agree b m h hr
+
+theorem C02_agrees_strict_from_supported_part (b : Bytes) (m : WMsg) (h : Strict.decode b = some m)
+    (hs : Strict.supportedOnly m = true) (hr : reencodable m = true) :
+    ∃ p, (parse b).out = .ok p ∧ agrees p m = true := by
+  obtain ⟨p, hp, ha⟩ := C02_agrees_strict_supported_part b m h hr
+  refine ⟨p, hp, ?_⟩
+  simpa [agrees, agreesSupported, flatSupported_eq_flat m hs] using ha
+
+/-- a message with content: an answer of the unsupported type 99 between two PTR answers (the second one owned by a
+pointer *across* the unsupported record); the model returns the two PTR records -/
+example : (match Strict.decode mixedWitness, (parse mixedWitness).out with
+           | some m, .ok p => !Strict.supportedOnly m && reencodable m && agreesSupported p m && decide (p.records.length = 2)
+               && decide (m.answers.length = 3)
+           | _, _ => false) = true := by
+  decide +kernel
 
 /-- the literal sentence of the property, without the `reencodable` proviso -/
 def C02_agrees_strict_literal : Prop :=
